@@ -473,10 +473,13 @@ def _prep_iterators(mol: Molecules, shape: tuple[int, int, int], scale: float):
 
     # construct matrices
     center = (np.array(shape) - 1.0) / 2.0
-    starts = intpos - center.astype(np.int32)
+    int_center = center.astype(np.int32)
+    starts = intpos - int_center
     stops = starts + shape
+    # the template center must land on ``starts + output_center == pos``, also for
+    # even-sized templates whose center is at a half-integer coordinate.
     mtxs = _compose_affine_matrices(
-        center, mol.rotator.inv(), output_center=center + residue
+        center, mol.rotator.inv(), output_center=int_center + residue
     )
 
     return starts, stops, mtxs
